@@ -52,6 +52,7 @@ type Line struct {
 	Event
 	C       Case   `json:"c"`
 	Backend string `json:"backend"`
+	Store   string `json:"store,omitempty"` // which real cache implementation held the entries
 }
 
 // Env is what the cases of one driver process share.
@@ -60,7 +61,9 @@ type Env struct {
 	PKI      *PKI
 	KeyStore string // signer key store of the jwt finalizer
 	Backend  string // semantics of the real memory cache for non-positive TTLs (self-test)
-	Wait     time.Duration
+	// the same for the real redis cache ("" = redis cases are not run)
+	RedisBackend string
+	Wait         time.Duration
 
 	svcMu sync.Mutex
 	svc   *service
